@@ -376,3 +376,185 @@ theorem wait_ends_when_heard {K : Type} [Num K] (w : World K) (wt : K → K) (wr
   exact ⟨_, rfl⟩
 
 end Wheatley.C10
+
+namespace Wheatley.C10
+open Wheatley.C06
+
+/-! ### The place holder is never asked for a row
+
+In server mode Wheatley starts with a `PlaceHolderGenerator` (stage 0) whose `_gen_row` raises
+`NullRowGenError`.  A touch can begin with it: `server_main` calls `look_to_has_been_called` directly
+when the instance is spawned with `--look-to-time`, whether or not a row generator has arrived.  The
+main loop survives because the method start of `start_next_row` re-checks the number of bells
+(`_check_number_of_bells()` is false for stage 0): Wheatley calls `Stand` and keeps ringing rounds. -/
+
+/-- While the current generator is the place holder, Wheatley is ringing rounds or the opening row. -/
+def HolderInv (b : Bot) : Prop := b.gen.stage = 0 → (b.ringingRounds = true ∨ b.ringingOpening = true)
+
+theorem holder_not_fit (b : Bot) (h : b.gen.stage = 0) : b.checkNumberOfBells b.gen = false := by
+  unfold Bot.checkNumberOfBells; simp [h]
+
+/-- The control machine keeps "rounds or opening row" when the generator does not fit the tower. -/
+theorem ctlNext_holder (c : Ctl) (i : CtlIn) (hfit : i.fits = false)
+    (h : c.ringingRounds = true ∨ c.ringingOpening = true) :
+    (ctlNext c i).ringingRounds = true ∨ (ctlNext c i).ringingOpening = true := by
+  simp only [ctlNext, hfit]
+  by_cases hs : startsNow c = true
+  · left; simp [hs]
+  · have hs' : startsNow c = false := by simpa using hs
+    rcases h with h | h
+    · left; simp [hs', h]
+    · right; simp [hs', h]
+
+/-- `generate_next_row` does not touch the generator while rounds or the opening row is being rung. -/
+theorem generateNextRow_rounds (b : Bot) (h : b.ringingRounds = true ∨ b.ringingOpening = true) :
+    (b.generateNextRow).2 = [] ∧ (b.generateNextRow).1.gen = b.gen ∧
+    (b.generateNextRow).1.ctl = b.ctl := by
+  unfold Bot.generateNextRow
+  by_cases ho : b.ringingOpening = true
+  · simp [ho, Bot.ctl]
+  · have ho' : b.ringingOpening = false := by simpa using ho
+    have hr : b.ringingRounds = true := by rcases h with h | h; exact h; exact absurd h ho
+    simp [ho', hr, Bot.ctl]
+
+theorem snrFinish_holder (b : Bot) (o4 : List Out) (e : String) (h4 : Out.crash e ∉ o4)
+    (h : b.ringingRounds = true ∨ b.ringingOpening = true) :
+    Out.crash e ∉ (Bot.snrFinish b o4).2 ∧ (Bot.snrFinish b o4).1.gen = b.gen := by
+  unfold Bot.snrFinish
+  split
+  · exact ⟨h4, rfl⟩
+  · obtain ⟨h1, h2, -⟩ := generateNextRow_rounds b h
+    rcases hq : b.generateNextRow with ⟨b3, o9⟩
+    rw [hq] at h1 h2
+    simp only [] at h1 h2 ⊢
+    subst h1
+    simp only [List.any_nil, Bool.false_eq_true, if_false, List.append_nil]
+    refine ⟨?_, h2⟩
+    simp only [List.mem_append, not_or]
+    refine ⟨h4, ?_⟩
+    intro hm
+    have := expectAll_snrKind b3 _ hm
+    unfold Bot.expectAll at hm
+    simp only [List.mem_map] at hm
+    obtain ⟨p, _, hp⟩ := hm
+    cases hp
+
+/-- **A row boundary with the place holder**: no exception of the generator (it is not asked for a
+row), the invariant is kept, and the generator stays. -/
+theorem holder_boundary (b : Bot) (f : Bool) (hg : b.gen.stage = 0)
+    (h : b.ringingRounds = true ∨ b.ringingOpening = true) :
+    Out.crash "NullRowGenError" ∉ (b.startNextRow f).2 ∧
+    ((b.startNextRow f).1.ringingRounds = true ∨ (b.startNextRow f).1.ringingOpening = true) ∧
+    (b.startNextRow f).1.gen.stage = 0 := by
+  have hkind : (b.startNextRow f).1.gen.stage = 0 := by
+    unfold Gen.stage; rw [startNextRow_gen_kind]; exact hg
+  refine ⟨?_, ?_, hkind⟩
+  · unfold Bot.startNextRow
+    cases hq : ctlStep b.ctl (b.ctlIn f) with
+    | crash => simp
+    | ok c started =>
+      simp only []
+      have hc : c = ctlNext b.ctl (b.ctlIn f) := by
+        unfold ctlStep at hq; split at hq <;> simp at hq; exact hq.1.symm
+      have hfit : (b.ctlIn f).fits = false := holder_not_fit b hg
+      have hflags := ctlNext_holder b.ctl (b.ctlIn f) hfit h
+      rw [← hc] at hflags
+      refine (snrFinish_holder _ _ _ ?_ ?_).1
+      · split
+        · exact makeCalls_no_crash _ _ _
+        · simp
+      · simpa [Bot.withCtl] using hflags
+  · cases hq : ctlStep b.ctl (b.ctlIn f) with
+    | crash =>
+      have he : (b.startNextRow f).1 = b.snrPrep := by unfold Bot.startNextRow; rw [hq]
+      rw [he]; unfold Bot.snrPrep
+      cases b.roundsLeft <;> exact h
+    | ok c started =>
+      have hctl := startNextRow_ctl b f c started hq
+      have hc : c = ctlNext b.ctl (b.ctlIn f) := by
+        unfold ctlStep at hq; split at hq <;> simp at hq; exact hq.1.symm
+      have hflags := ctlNext_holder b.ctl (b.ctlIn f) (holder_not_fit b hg) h
+      rw [← hc, ← hctl] at hflags
+      exact hflags
+
+/-- **A whole turn with the place holder** never raises `NullRowGenError` and keeps the invariant. -/
+theorem holder_turn (b : Bot) (bell : Nat) (uc : Bool) (hg : b.gen.stage = 0)
+    (h : b.ringingRounds = true ∨ b.ringingOpening = true) :
+    Out.crash "NullRowGenError" ∉ (b.tickEnd bell uc).2 ∧
+    ((b.tickEnd bell uc).1.ringingRounds = true ∨ (b.tickEnd bell uc).1.ringingOpening = true) ∧
+    (b.tickEnd bell uc).1.gen.stage = 0 := by
+  unfold Bot.tickEnd
+  simp only []
+  have ho1 : Out.crash "NullRowGenError" ∉ (if uc then [] else b.ringBell bell) := by
+    split
+    · simp
+    · exact ringBell_no_crash _ _ _
+  have ho2 : Out.crash "NullRowGenError" ∉ (if b.place == 0 then b.makeCalls b.calls else []) := by
+    split
+    · exact makeCalls_no_crash _ _ _
+    · simp
+  split
+  · obtain ⟨h1, h2, h3⟩ := holder_boundary { b with place := b.place + 1 } false hg h
+    refine ⟨?_, h2, h3⟩
+    simp only [List.mem_append, not_or]
+    exact ⟨⟨ho1, ho2⟩, h1⟩
+  · refine ⟨?_, h, hg⟩
+    simp only [List.mem_append, not_or]
+    exact ⟨ho1, ho2⟩
+
+/-- **Look To with the place holder as the generator to be rung** (the spawn path: `server_main` calls
+`look_to_has_been_called` without the gate of `_on_look_to`): the touch starts in rounds and no
+exception of the generator is raised. -/
+theorem holder_look_to (b : Bot) (hg : (b.nextGen.getD b.gen).stage = 0) (hb : HolderInv b) :
+    Out.crash "NullRowGenError" ∉ (b.lookTo).2 ∧
+    ((b.lookTo).1.gen.stage = 0 → ((b.lookTo).1.ringingRounds = true ∨ (b.lookTo).1.ringingOpening = true)) := by
+  unfold Bot.lookTo
+  split
+  · exact ⟨by simp, fun hs => hb hs⟩
+  · have ha : b.armLookTo.gen.stage = 0 := hg
+    have hf : b.armLookTo.ringingRounds = true ∨ b.armLookTo.ringingOpening = true := Or.inl rfl
+    obtain ⟨h1, h2, h3⟩ := holder_boundary b.armLookTo true ha hf
+    rcases hq : b.armLookTo.startNextRow true with ⟨d, o⟩
+    rw [hq] at h1 h2 h3
+    simp only [] at h1 h2 h3 ⊢
+    refine ⟨?_, fun _ => h2⟩
+    simp only [List.cons_append, List.nil_append, List.mem_cons, not_or]
+    exact ⟨by simp, by simp, h1⟩
+
+/-- Calls keep the invariant (`Look To` re-establishes it through `holder_look_to` or leaves the Bot
+alone; `Rounds` only raises a flag; nothing else touches the two flags or the current generator). -/
+theorem holder_call_other (b : Bot) (c : String) (hc : c ≠ Generated.call_LOOK_TO) (h : HolderInv b) :
+    HolderInv (b.onCall c).1 := by
+  unfold Bot.onCall
+  simp only [hc, beq_iff_eq, if_false]
+  unfold HolderInv at *
+  split
+  · unfold Bot.onGo; split
+    · exact h
+    · exact h
+  · split
+    · intro hs; exact h (by simpa [Gen.stage, Gen.setBob] using hs)
+    · split
+      · intro hs; exact h (by simpa [Gen.stage, Gen.setSingle] using hs)
+      · split
+        · exact h
+        · split
+          · intro _; right; rfl
+          · split
+            · exact h
+            · exact h
+
+/-- Non-vacuity: a freshly started server-mode Bot holds the place holder, satisfies the invariant, and
+its spawn-path Look To (tower of six loaded) rings rounds without an exception. -/
+example : HolderInv (Bot.init mkPlaceholder true false true (some "Wheatley") (some 1)) ∧
+    mkPlaceholder.stage = 0 := by
+  refine ⟨fun _ => Or.inr rfl, rfl⟩
+
+def spawned : Bot := ((Bot.init mkPlaceholder true false true (some "Wheatley") (some 1)).onMsg
+                (.globalState [true, true, true, true, true, true])).1
+
+example : (spawned.lookTo).1.isRinging = true ∧ (spawned.lookTo).1.row = [1, 2, 3, 4, 5, 6] ∧
+      (spawned.lookTo).2.any (fun o => match o with | .crash _ => true | _ => false) = false := by
+  decide
+
+end Wheatley.C10
